@@ -98,7 +98,60 @@ def _neutralise_cache_dots(case):
     return dict(case, u=u[:m.end()] + tail)
 
 
-TRIGGERS = {"cache-tail-with-dot-segment": (_cache_tail_dots, _neutralise_cache_dots)}
+_KEYS = r"(?:redirect(?:_to)?|target|redir|next|link|orig|goto|url|[luq])"
+_MARK = _re.compile(r"(\?|&|%3F|%26)(?=" + _KEYS + r"(?:=|%3D))", _re.I)
+
+
+def _respellable_markers(u):
+    """positions of redirect-like keys whose introducing '?' / '&' canonicalize_url respells: an escaped one anywhere, a raw '?'
+    that is not the URL's first '?', or a raw one inside the fragment"""
+    first_q = u.find("?")
+    frag = u.find("#")
+    out = []
+    for m in _MARK.finditer(u):
+        tok = m.group(1)
+        if tok.startswith("%"):
+            out.append(m.end())
+        elif frag != -1 and m.start() > frag:
+            out.append(m.end())
+        elif tok == "?" and m.start() != first_q:
+            out.append(m.end())
+    return out
+
+
+def _escaped_redirect_marker(case):
+    return any(_respellable_markers(case.get(k, "")) for k in ("u", "v"))
+
+
+def _neutralise_escaped_marker(case):
+    c = dict(case)
+    for k in ("u", "v"):
+        if k in c:
+            u = c[k]
+            for pos in reversed(_respellable_markers(u)):
+                u = u[:pos] + "x" + u[pos:]
+            c[k] = u
+    return c
+
+
+_FB_ROUTE_UP = _re.compile(r"/(POSTS|Posts|VIDEOS|Videos|PHOTOS|Photos|GROUPS|Groups|PERMALINK|Permalink|PEOPLE|People|WATCH|Watch)(?=/|$|\?)")
+
+
+def _upper_route_word(case):
+    return case.get("options", {}).get("platform_aware") and any(_FB_ROUTE_UP.search(case.get(k, "")) for k in ("u", "v"))
+
+
+def _neutralise_upper_route(case):
+    c = dict(case)
+    for k in ("u", "v"):
+        if k in c:
+            c[k] = _FB_ROUTE_UP.sub(lambda m: "/" + m.group(1).lower(), c[k])
+    return c
+
+
+TRIGGERS = {"cache-tail-with-dot-segment": (_cache_tail_dots, _neutralise_cache_dots),
+            "escaped-question-mark-before-redirect-key": (_escaped_redirect_marker, _neutralise_escaped_marker),
+            "upper-case-platform-route-word": (_upper_route_word, _neutralise_upper_route)}
 
 OPTS = st.fixed_dictionaries({"quoted": st.booleans(), "platform_aware": st.sampled_from([False, False, True]), "strip_suffix": st.sampled_from([False, False, True])})
 
@@ -120,7 +173,7 @@ def _pairs(draw, tier):
         pool, spool = T.IRRELEVANT, T.STRING_LEVEL_IRRELEVANT
     else:
         s = draw(clean_bases(platform=True))
-        pool = {k: T.IRRELEVANT[k] for k in ["scheme", "userinfo", "default-port", "host-case", "tracking-items", "permute-query", "hex-case", "subdomain"]}
+        pool = {k: T.IRRELEVANT[k] for k in ["scheme", "userinfo", "default-port", "host-case", "tracking-items", "permute-query", "hex-case", "subdomain", "dot-segments"]}
         spool = T.STRING_LEVEL_IRRELEVANT
     pool = dict(pool)
     pool["empty-query-item"] = T.t_empty_query_item   # a collision *candidate*: the premise decides
@@ -151,6 +204,31 @@ def _cache_wrapped(tier):
                       st.sampled_from(["", "/", "?x=1", "#section", "/?b=2&a=1"]))
     pre = st.sampled_from(["http://x.cdn.ampproject.org/c/s/", "https://x.cdn.ampproject.org/v/s/", "http://bc.marfeelcache.com/amp/", "https://bc.marfeel.com/"])
     return st.tuples(pre, inner, OPTS).map(lambda v: {"kind": "single", "u": v[0] + v[1][0] + "".join("/" + x for x in v[1][1]) + v[1][2], "options": v[2]})
+
+
+def _corner_shapes(acc, shard, nshards, seed, tier):
+    """shapes behind the two design-level findings, so that they are observed (and only they are excused)"""
+    import itertools
+    idx = 0
+    optsets = [{"quoted": q, "platform_aware": pa, "strip_suffix": ss} for q in (False, True) for pa in (False, True) for ss in (False, True)]
+    for carrier, key, tgt in itertools.product(["http://a.com/p#x%sKEY=T", "http://a.com/?a=x%sKEY=T", "https://b.org/p?z=1#/r%sKEY=T&k=2"],
+                                               ["url", "u", "next", "goto", "q", "xurl", "ur"], ["http://y.com", "http%3A%2F%2Fy.com%2Fz", "/rel"]):
+        for esc in ("%3F", "%3f", "?"):
+            for o in optsets:
+                idx += 1
+                if idx % nshards != shard:
+                    continue
+                u = (carrier % esc).replace("KEY", key).replace("T", tgt)
+                acc.check({"kind": "single", "u": u, "options": o}, lambda c: c.pop("_changed", True), ["corner:escaped-redirect-marker"])
+    for path, o in itertools.product(["/X/POSTS/123", "/zuck/Posts/10158", "/Groups/123456789/permalink/55", "/zuck/VIDEOS/77", "/zuck/posts/10158", "/WATCH/?v=77"], optsets):
+        for host in ("https://facebook.com", "http://m.facebook.com", "https://www.youtube.com"):
+            idx += 1
+            if idx % nshards != shard:
+                continue
+            u = host + path
+            handle = host + "/" + path.split("/")[1]
+            acc.check({"kind": "pair", "u": u, "v": handle, "family": "corner", "transforms": ["route-word-case"], "options": o}, _pair_nt, ["corner:upper-case-route-word"])
+            acc.check({"kind": "single", "u": u, "options": o}, lambda c: c.pop("_changed", True), ())
 
 
 def _pair_nt(case):
@@ -215,6 +293,8 @@ def campaigns(tier, seed):
         Campaign("composition-cache-wrapped", hyp_campaign(_cache_wrapped, lambda v: v, lambda c: c.pop("_changed", True), lambda c: ["cache-wrapped"],
                                                            examples=(150, 3000), lazy_nontrivial=True), "hypothesis",
                  bounds="AMP / Marfeel cache prefixes + host + <=4 segments incl. dot segments + tails x 12 option sets"),
+        Campaign("corner-shapes", _corner_shapes, "enumeration", exhaustive=True, shards=8,
+                 bounds="escaped / raw '?' before 7 redirect-like keys x 3 carriers x 3 targets; 6 upper-case facebook route paths x 3 hosts; x 8 option sets"),
         Campaign("composition-token-sweep", _sweep, "enumeration", exhaustive=True,
                  bounds="every token%s in six positions of a carrier URL x 4 option sets" % ("" if quick else " and ordered token pair (rotating option sets)"),
                  params={"pairs": not quick}),
